@@ -2,6 +2,7 @@ import CppUModel.Gen.MockEquals
 import CppUModel.Proofs.MockValue
 import CppUModel.Model.MockNamedValueList
 import CppUModel.Model.MockEntry
+import CppUModel.Model.MockReturn
 /-!
 # C09 — mock parameter values compare by mathematical value, symmetrically
 
@@ -606,6 +607,66 @@ theorem api_equals_iff (ea aa ke ka : String) (hea : ea ∈ ["ovl", "exp", "c"])
   rw [equals_int_iff e a hie hia, dx, dy]
   exact ⟨fun h => Option.some.inj h, fun h => by rw [h]⟩
 
+/-! ## return values read back: every integer reader at every level ends in its own getter
+
+`retReaders` is regenerated from MockActualCall.cpp / MockSupport.cpp (plain readers: `return returnValue().getX();`,
+`…OrDefault`: the default exactly when `hasReturnValue()` is false, otherwise the plain reader). -/
+
+/-- every reader is wired to the getter of its own return type, every `…OrDefault` to its own plain reader -/
+theorem ret_readers_as_required : retReaders = requiredRetReaders := by decide
+
+/-- … so every one of the 24 readers is of the modelled shape (no conversion between getter and reader) -/
+theorem ret_readers_total : ∀ row ∈ retReaders, (readerPlan row.1 row.2.1).isSome = true := by decide
+
+theorem getterRun_exact (g : String) (v : MVal) (hw : v.WF) (n : Int) (h : getterRun g v = .ok n) :
+    denote? v = some n := by
+  unfold getterRun at h
+  split at h
+  · cases hr : getIntValueGen v with
+    | error e => simp [hr, mapInt] at h
+    | ok x => simp [hr, mapInt] at h; rw [← h]; exact getIntValue_exact v hw x hr
+  split at h
+  · cases hr : getUnsignedIntValueGen v with
+    | error e => simp [hr, mapInt] at h
+    | ok x => simp [hr, mapInt] at h; rw [← h]; exact getUnsignedIntValue_exact v hw x hr
+  split at h
+  · cases hr : getLongIntValueGen v with
+    | error e => simp [hr, mapInt] at h
+    | ok x => simp [hr, mapInt] at h; rw [← h]; exact getLongIntValue_exact v hw x hr
+  split at h
+  · cases hr : getUnsignedLongIntValueGen v with
+    | error e => simp [hr, mapInt] at h
+    | ok x => simp [hr, mapInt] at h; rw [← h]; exact getUnsignedLongIntValue_exact v hw x hr
+  split at h
+  · cases hr : getLongLongIntValueGen v with
+    | error e => simp [hr, mapInt] at h
+    | ok x => simp [hr, mapInt] at h; rw [← h]; exact getLongLongIntValue_exact v hw x hr
+  split at h
+  · cases hr : getUnsignedLongLongIntValueGen v with
+    | error e => simp [hr, mapInt] at h
+    | ok x => simp [hr, mapInt] at h; rw [← h]; exact getUnsignedLongLongIntValue_exact v hw x hr
+  · simp at h
+
+/-- Whatever integer return value the expectation stored, a reader of any level and form returns exactly that integer
+    or fails the test — never a different number. -/
+theorem reader_exact_or_fail (level reader : String) (v : MVal) (hw : v.WF) (d n : Int)
+    (h : readerResult level reader (some v) d = some (.ok n)) : denote? v = some n := by
+  unfold readerResult at h
+  cases hp : readerPlan level reader with
+  | none => simp [hp] at h
+  | some plan =>
+    obtain ⟨od, g⟩ := plan
+    cases od <;> simp [hp] at h <;> exact getterRun_exact g v hw n h
+
+/-- an `…OrDefault` reader returns the default when no return value was set -/
+theorem reader_default (level reader g : String) (d : Int) (hp : readerPlan level reader = some (true, g)) :
+    readerResult level reader none d = some (.ok d) := by
+  simp [readerResult, hp]
+
+/-- the twelve `…OrDefault` readers are the default-returning form, the twelve others are not -/
+theorem reader_forms :
+    ∀ row ∈ retReaders, (readerPlan row.1 row.2.1).map (·.1) = some (row.2.2.2.1 == "orDefault") := by decide
+
 /-! ## non-vacuity: concrete values on both sides of every boundary the theorems talk about -/
 
 -- −1 as int, 2^32−1 as unsigned, 2^64−1 as unsigned long: same low bits, three different integers
@@ -654,5 +715,11 @@ example : (setObjectPointer none (fun _ _ _ => true) "T" 5).comparator_.isNone =
 -- API entry points
 example : entryValue "actual" "c" "ullong" 18446744073709551615 = some (.ullong 18446744073709551615#64) := rfl
 example : InRange "ullong" 18446744073709551615 ∧ InRange "llong" (-1) := by simp [InRange]
+
+-- return-value readers
+example : readerResult "support" "returnUnsignedIntValueOrDefault" (some (.ulong 4294967296#64)) 7 =
+    some (.error (.typeMismatch "unsigned int")) := rfl
+example : readerResult "support" "returnUnsignedIntValueOrDefault" none 7 = some (.ok 7) := rfl
+example : readerResult "call" "returnLongLongIntValue" (some (.int (-1))) 7 = some (.ok (-1)) := rfl
 
 end Mock
